@@ -224,6 +224,8 @@ class Effects:
                     return self.roots(fn.value, f, amap, depth + 1)
             if d in VIEW_FUNCS and e.args:
                 return self.roots(e.args[0], f, amap, depth + 1)
+            if d == "getattr" and e.args:
+                return self.roots(e.args[0], f, amap, depth + 1) | {FRESH}
             if d in ("copy.copy",) and e.args:
                 # shallow copy: the container is fresh, its elements are shared
                 return self.roots(e.args[0], f, amap, depth + 1) | {FRESH}
